@@ -122,19 +122,30 @@ func (s *Server) servePacket(pc net.PacketConn) error {
 	// closeCh is used to receive notifications of socket closures from
 	// packetConn, which allows us to remove stale connections (whose
 	// proxy handlers have completed) from the udpConns map.
-	closeCh := make(chan string, 10)
+	closeCh := make(chan *packetConn, 10)
 	for {
 		select {
-		case addr := <-closeCh:
+		case closed := <-closeCh:
 			// UDP connection is closed (either implicitly through timeout or by
-			// explicit call to Close()).
-			delete(udpConns, addr)
+			// explicit call to Close()). Only forget it if it has not already
+			// been replaced by a newer connection of the same downstream.
+			if udpConns[closed.addr.String()] == closed {
+				delete(udpConns, closed.addr.String())
+			}
 
 		case pkt := <-packets:
 			if pkt.err != nil {
 				return pkt.err
 			}
 			conn, ok := udpConns[pkt.addr.String()]
+			if ok {
+				select {
+				case <-conn.done:
+					// already closed, we just have not been notified yet
+					ok = false
+				default:
+				}
+			}
 			if !ok {
 				// No existing proxy handler is running for this downstream.
 				// Create one now.
@@ -143,6 +154,7 @@ func (s *Server) servePacket(pc net.PacketConn) error {
 					readCh:     make(chan *packet, 5),
 					addr:       pkt.addr,
 					closeCh:    closeCh,
+					done:       make(chan struct{}),
 				}
 				udpConns[pkt.addr.String()] = conn
 				go func(conn *packetConn) {
@@ -155,7 +167,12 @@ func (s *Server) servePacket(pc net.PacketConn) error {
 					// the old one shutting down.
 				}(conn)
 			}
-			conn.readCh <- &pkt
+			select {
+			case conn.readCh <- &pkt:
+			case <-conn.done:
+				// closed while its queue was full: the datagram is dropped
+				udpBufPool.Put(pkt.pooledBuf)
+			}
 		}
 	}
 }
@@ -235,7 +252,10 @@ type packetConn struct {
 	net.PacketConn
 	addr    net.Addr
 	readCh  chan *packet
-	closeCh chan string
+	closeCh chan *packetConn
+	// done is closed by Close(); readCh is never closed because the server loop may still send to it
+	done      chan struct{}
+	closeOnce sync.Once
 	// If not nil, then the previous Read() call didn't consume all the data
 	// from the buffer, and this packet will be reused in the next Read()
 	// without waiting for readCh.
@@ -295,12 +315,10 @@ func (pc *packetConn) Read(b []byte) (n int, err error) {
 	var done bool
 	for !done {
 		select {
+		case <-pc.done:
+			// Closed by another goroutine. Return EOF below.
+			done = true
 		case pkt := <-pc.readCh:
-			if pkt == nil {
-				// Channel is closed. Return EOF below.
-				done = true
-				break
-			}
 			buf := bytes.NewReader(pkt.pooledBuf[:pkt.n])
 			n, err = buf.Read(b)
 			if buf.Len() == 0 {
@@ -329,7 +347,7 @@ func (pc *packetConn) Read(b []byte) (n int, err error) {
 	// Although Close() also does this, we inform the server loop early about
 	// the closure to ensure that if any new packets are received from this
 	// connection in the meantime, a new handler will be started.
-	pc.closeCh <- pc.addr.String()
+	pc.closeCh <- pc
 	// Returning EOF here ensures that io.Copy() waiting on the downstream for
 	// reads will terminate.
 	return 0, io.EOF
@@ -345,14 +363,19 @@ func (pc *packetConn) Close() error {
 		pc.lastPacket = nil
 	}
 	// This will abort any active Read() from another goroutine and return EOF
-	close(pc.readCh)
+	pc.closeOnce.Do(func() { close(pc.done) })
 	// Drain pending packets to ensure we release buffers back to the pool
-	for pkt := range pc.readCh {
-		udpBufPool.Put(pkt.pooledBuf)
+	for drained := false; !drained; {
+		select {
+		case pkt := <-pc.readCh:
+			udpBufPool.Put(pkt.pooledBuf)
+		default:
+			drained = true
+		}
 	}
 	// We may have already done this earlier in Read(), but just in case
 	// Read() wasn't being called, (re-)notify server loop we're closed.
-	pc.closeCh <- pc.addr.String()
+	pc.closeCh <- pc
 	// We don't call net.PacketConn.Close() here as we would stop the UDP
 	// server.
 	return nil
